@@ -87,7 +87,7 @@ def encRes : Res → String
   | .ctxObj => "ctx" | .cell d c => "c" ++ toString d ++ "." ++ encCell c | .global => "g" | .pyFallback => "y"
 
 def encVal : Val → String
-  | .undefined => "U" | .obj n => "o" ++ toString n
+  | .undefined => "U" | .pyNone => "N" | .obj n => "o" ++ toString n
 
 def encSVal : SVal → String
   | .ctxObj => "ctx"
@@ -98,9 +98,9 @@ def encSVal : SVal → String
   | .val v => "v" ++ encVal v | .strictError => "E" | .pyNameError => "Y"
 
 /-- key sets → dictionaries with recognisable values: import 1, context 2, builtin 3 -/
-def mkRT (imp ctx bi : List Name) : RT :=
+def mkRT (imp ctx bi : List Name) (ctxNone : List Name := []) : RT :=
   { importNs := fun x => if x ∈ imp then some (.obj 1) else none,
-    data := fun x => if x ∈ ctx then some (.obj 2) else none,
+    data := fun x => if x ∈ ctxNone then some .pyNone else if x ∈ ctx then some (.obj 2) else none,
     builtins := fun x => if x ∈ bi then some (.obj 3) else none }
 
 def sortStrs (xs : List String) : List String := (xs.toArray.qsort (· < ·)).toList
@@ -139,12 +139,13 @@ def handle : Handler
   | "full" :: rest => do
       let (c, r) ← parseCfg rest
       match r with
-      | imp :: ctx :: bi :: extra :: stops :: toks => do
-          let imp ← decNames imp; let ctx ← decNames ctx; let bi ← decNames bi; let extra ← decNames extra
+      | imp :: ctx :: cnone :: bi :: extra :: stops :: toks => do
+          let imp ← decNames imp; let ctx ← decNames ctx; let cnone ← decNames cnone
+          let bi ← decNames bi; let extra ← decNames extra
           let stops ← (if stops == "_" then some [] else (stops.splitOn "+").mapM (·.toNat?))
           let (t, left) ← parseBody (toks.length + 1) toks
           if !left.isEmpty then none else
-          let rt := mkRT imp ctx bi
+          let rt := mkRT imp ctx bi cnone
           let tops := (moduleIds c t).topdefs
           let scopes := (allScopes c t).map (encScope c rt tops extra (bodyFrame c t).ids.argDecl)
           let fr := bodyFrame c t
